@@ -13,7 +13,7 @@ import (
 	"strconv"
 	"syscall"
 
-	"github.com/ontio/ontology/common"
+	"github.com/ontio/ontology/core/store"
 	"github.com/ontio/ontology/core/store/ledgerstore"
 	"github.com/ontio/ontology/core/types"
 	"verifharness/lib/chain"
@@ -35,6 +35,8 @@ type history struct {
 	L      int
 	blocks []*types.Block // index = height (0 unused)
 	ref    []refPoint     // index = height
+	big    map[uint32]bigSpec
+	writes []int // index = height: entries of the block's state write set
 }
 
 type snap struct {
@@ -46,9 +48,9 @@ type snap struct {
 
 const maxTx = 6
 
-// buildChain commits the deterministic chain of (tag, seed) into dir.  onBlock is called
+// buildChain commits the deterministic chain of (tag, seed, big) into dir.  onBlock is called
 // after each commit with the ledger still open.
-func buildChain(tag string, seed uint64, L int, dir string, onBlock func(c *chain.Chain, h uint32, b *types.Block, execHash, execRoot common.Uint256)) (*chain.Chain, error) {
+func buildChain(tag string, seed uint64, L int, big map[uint32]bigSpec, dir string, onBlock func(c *chain.Chain, h uint32, b *types.Block, res store.ExecuteResult)) (*chain.Chain, error) {
 	w := chain.NewWorld(tag, 5)
 	c, err := chain.NewSolo(dir, w.BK)
 	if err != nil {
@@ -56,12 +58,14 @@ func buildChain(tag string, seed uint64, L int, dir string, onBlock func(c *chai
 	}
 	rng := vf.NewRNG(seed)
 	if onBlock != nil {
-		onBlock(c, 0, nil, common.UINT256_EMPTY, common.UINT256_EMPTY)
+		onBlock(c, 0, nil, store.ExecuteResult{})
 	}
 	for h := uint32(1); h <= uint32(L); h++ {
 		var txs []*types.Transaction
 		if h == 1 {
 			txs = w.FundingTxs()
+		} else if sp, ok := big[h]; ok {
+			txs = bigTxs(w, rng.Sub(uint64(h)+0xb18), sp, h)
 		} else {
 			txs, _ = w.RandomTxs(rng.Sub(uint64(h)), maxTx)
 		}
@@ -83,7 +87,7 @@ func buildChain(tag string, seed uint64, L int, dir string, onBlock func(c *chai
 			}
 		}
 		if onBlock != nil {
-			onBlock(c, h, b, res.Hash, res.MerkleRoot)
+			onBlock(c, h, b, res)
 		}
 	}
 	return c, nil
@@ -173,17 +177,17 @@ func main() {
 		return
 	}
 	r := vf.NewRun("C01", "fault_enumeration",
-		"seeded chains of L blocks (0-6 txs: ONT/ONG transfers incl. failing ones, contract storage put/delete, EVM transfers, a deploy; both commit paths alternate); at every block every crash point of submitBlock (6) yields a directory snapshot; recoveries that replay a block are snapshotted again at the 3 recovery crash points; torn merkle hash-file variants; thorough adds real SIGKILLs in a child process. A case = (crash point, height, variant); non-trivial when the block carries >=1 tx or the crash point leaves stores at different heights; distinct by (history, point, height, variant)")
+		"seeded chains of L blocks (0-6 txs: ONT/ONG transfers incl. failing ones, contract storage put/delete, EVM transfers, a deploy; some blocks are BIG: 63..~300 transfers / storage puts of distinct keys, or 3 transactions with 56..140 storage puts, so that the block, event and state write batches exceed 64 / 128 / 256 entries; both commit paths alternate); at every block every crash point of submitBlock (6) yields a directory snapshot; recoveries that replay a block are snapshotted again at the 3 recovery crash points; torn merkle hash-file variants; thorough adds real SIGKILLs in a child process. A case = (crash point, height, variant); non-trivial when the block carries >=1 tx or the crash point leaves stores at different heights; distinct by (history, point, height, variant)")
 	scratch = vf.Scratch("c01")
 	defer os.RemoveAll(scratch)
 
-	nHist, L := 1, 12
+	nHist, L := 1, 13
 	if vf.Thorough() {
 		nHist, L = 5, 36
 	}
 	rng := vf.NewRNG(vf.Seed())
 	for hi := 0; hi < nHist; hi++ {
-		runHistory(r, fmt.Sprintf("c01-%d-%d", vf.Seed(), hi), rng.Sub(uint64(hi)).U64(), L)
+		runHistory(r, fmt.Sprintf("c01-%d-%d", vf.Seed(), hi), rng.Sub(uint64(hi)).U64(), L, hi, nHist)
 	}
 	for _, p := range []string{"submit:before-batches", "submit:after-saveBlockToBlockStore", "submit:after-saveBlockToStateStore",
 		"submit:after-blockStore.CommitTo", "submit:after-eventStore.CommitTo", "submit:after-stateStore.CommitTo",
@@ -196,27 +200,41 @@ func main() {
 	r.Require("torn_merkle_variant", 3)
 	r.Require("next_blocks_replayed", 20)
 	r.Require("real_sigkill", 6)
+	r.Require("big_block_crash_points_checked/tx>64", 12)
+	r.Require("big_block_crash_points_checked/tx>128", 6)
+	r.Require("big_block_crash_points_checked/state_writes>64", 6)
+	r.Require("big_block_crash_points_checked/state_writes>128", 6)
+	r.Require("big_block_crash_points_checked/few_txs_state_writes>128", 6)
+	if vf.Thorough() {
+		r.Require("big_block_crash_points_checked/tx>256", 6)
+		for _, n := range []int{63, 64, 65, 127, 128, 129} {
+			r.Require(fmt.Sprintf("big_block_crash_points_checked/transfers/tx=%d", n), 6)
+			r.Require(fmt.Sprintf("big_block_crash_points_checked/kvputs/tx=%d", n), 6)
+		}
+	}
 	r.Assume("crash = process death: everything already passed to write() survives (page cache), nothing else; power loss / un-fsynced data loss is out of scope")
 	r.Assume("LevelDB's own crash-consistency below write() granularity is trusted")
 	os.RemoveAll(scratch)
 	r.Finish()
 }
 
-func runHistory(r *vf.Run, tag string, seed uint64, L int) {
-	h := &history{tag: tag, seed: seed, L: L, blocks: make([]*types.Block, L+1), ref: make([]refPoint, L+1)}
+func runHistory(r *vf.Run, tag string, seed uint64, L int, hi, nHist int) {
+	h := &history{tag: tag, seed: seed, L: L, blocks: make([]*types.Block, L+1), ref: make([]refPoint, L+1),
+		big: bigPlan(vf.Seed(), hi, nHist, L), writes: make([]int, L+1)}
 	refDir := filepath.Join(scratch, tag+"-ref")
 	captured = nil
 	firingLog = nil
 	captureDir = refDir
 	captureMode = "ref"
 	txCount := make([]int, L+1)
-	c, err := buildChain(tag, seed, L, refDir, func(c *chain.Chain, ht uint32, b *types.Block, eh, er common.Uint256) {
+	c, err := buildChain(tag, seed, L, h.big, refDir, func(c *chain.Chain, ht uint32, b *types.Block, res store.ExecuteResult) {
 		captureMode = ""
 		h.blocks[ht] = b
 		if b != nil {
 			txCount[ht] = len(b.Transactions)
+			h.writes[ht] = res.WriteSet.Len()
 		}
-		h.ref[ht] = refPoint{fp: c.Fingerprint(), events: eventsOf(c, ht), proofs: proofsOf(c, ht), execHash: eh.ToHexString(), execRoot: er.ToHexString(), merkleSz: merkleSize(refDir)}
+		h.ref[ht] = refPoint{fp: c.Fingerprint(), events: eventsOf(c, ht), proofs: proofsOf(c, ht), execHash: res.Hash.ToHexString(), execRoot: res.MerkleRoot.ToHexString(), merkleSz: merkleSize(refDir)}
 		captureMode = "ref"
 	})
 	captureMode = ""
@@ -275,7 +293,8 @@ func runHistory(r *vf.Run, tag string, seed uint64, L int) {
 		os.RemoveAll(kl.dir)
 		cmd := exec.Command(self)
 		cmd.Env = append(os.Environ(), "VERIF_C01_CHILD="+kl.dir, "VERIF_C01_KILL="+strconv.Itoa(kl.k), "VERIF_C01_L="+strconv.Itoa(L),
-			"VERIF_C01_SEED="+strconv.FormatUint(seed, 10), "VERIF_C01_TAG="+tag)
+			"VERIF_C01_SEED="+strconv.FormatUint(seed, 10), "VERIF_C01_TAG="+tag,
+			"VERIF_C01_HI="+strconv.Itoa(hi), "VERIF_C01_NHIST="+strconv.Itoa(nHist))
 		kl.out, kl.err = cmd.CombinedOutput()
 		if cmd.ProcessState != nil {
 			kl.ws, _ = cmd.ProcessState.Sys().(syscall.WaitStatus)
@@ -297,6 +316,10 @@ func checkRecovery(r *vf.Run, h *history, bk interface{}, s snap, variant string
 	defer os.RemoveAll(s.dir)
 	id := map[string]interface{}{"history": h.tag, "seed": h.seed, "L": h.L, "point": s.point, "height": s.height, "variant": variant}
 	r.Count("point/" + s.point)
+	if sp, ok := h.big[s.height]; ok {
+		countBig(r, sp, len(h.blocks[s.height].Transactions), h.writes[s.height])
+		id["txs"], id["state_writes"] = len(h.blocks[s.height].Transactions), h.writes[s.height]
+	}
 	nontrivial := len(h.blocks[s.height].Transactions) > 0
 	fp := ""
 	if nontrivial {
@@ -361,7 +384,7 @@ func checkRecovery(r *vf.Run, h *history, bk interface{}, s snap, variant string
 		r.Count("recovered_to_new_height")
 	default:
 		r.Violation("height-neither-old-nor-new:"+s.point, fmt.Sprintf("recovered height %d, committing %d", height, s.height), id)
-		c.Close()
+		closeRecovered(r, c, s, variant, id)
 		return
 	}
 	ok := compareWithRef(r, h, c, height, s, variant, id, "after-recovery")
@@ -403,8 +426,8 @@ func checkRecovery(r *vf.Run, h *history, bk interface{}, s snap, variant string
 		}
 	}
 	finalH := c.Ledger.GetCurrentBlockHeight()
-	if err := c.Close(); err != nil {
-		r.Violation("close-fails:"+s.point, err.Error(), id)
+	if !closeRecovered(r, c, s, variant, id) {
+		ok = false // the directory is still locked by the half-closed ledger
 	}
 	// --- second reopen must be clean as well
 	if ok {
@@ -425,6 +448,19 @@ func checkRecovery(r *vf.Run, h *history, bk interface{}, s snap, variant string
 	for _, n := range nestedSnaps {
 		checkRecovery(r, h, bk, snap{point: n.point, height: s.height, dir: n.dir, nested: true}, "during-recovery-of:"+s.point, false)
 	}
+}
+
+// closeRecovered closes a ledger that was opened from a crash snapshot: Close must neither fail nor panic.
+func closeRecovered(r *vf.Run, c *chain.Chain, s snap, variant string, id map[string]interface{}) bool {
+	var err error
+	if p := vf.Catch(func() { err = c.Close() }); p != nil {
+		r.Violation("close-panics:"+s.point+":"+vclass(variant), fmt.Sprint(p), id)
+		return false
+	}
+	if err != nil {
+		r.Violation("close-fails:"+s.point, err.Error(), id)
+	}
+	return true
 }
 
 func vclass(v string) string {
@@ -481,8 +517,10 @@ func childKill(dir string) {
 	k, _ := strconv.Atoi(os.Getenv("VERIF_C01_KILL"))
 	L, _ := strconv.Atoi(os.Getenv("VERIF_C01_L"))
 	seed, _ := strconv.ParseUint(os.Getenv("VERIF_C01_SEED"), 10, 64)
+	hi, _ := strconv.Atoi(os.Getenv("VERIF_C01_HI"))
+	nHist, _ := strconv.Atoi(os.Getenv("VERIF_C01_NHIST"))
 	killAtFiring = k
-	c, err := buildChain(os.Getenv("VERIF_C01_TAG"), seed, L, dir, nil)
+	c, err := buildChain(os.Getenv("VERIF_C01_TAG"), seed, L, bigPlan(vf.Seed(), hi, nHist, L), dir, nil)
 	if err != nil {
 		fmt.Println("child error:", err)
 		os.Exit(7)
